@@ -39,9 +39,9 @@ Definition mk_wcfg (T : float) (period cf0 : Z) : wcfg :=
                else 0%float in
   {| w_thr := T; w_period := period; w_cf := cf; w_warning := warning; w_max := maxt; w_slope := slope |}.
 
-(* IsValidRule for TokenCalculateStrategy = WarmUp (besides Threshold >= 0) *)
+(* IsValidRule for TokenCalculateStrategy = WarmUp: Threshold not NaN (1e1f6ae) and not negative, period, cold factor *)
 Definition wvalid (T : float) (period cf0 : Z) : bool :=
-  negb (T <? 0)%float && (0 <? period) && negb (cf0 =? 1).
+  negb (is_nan T) && negb (T <? 0)%float && (0 <? period) && negb (cf0 =? 1).
 
 Record wst := { stored : Z;           (* storedTokens (int64) *)
                 last_filled : Z;      (* lastFilledTime (uint64, ms) *)
@@ -62,16 +62,21 @@ Definition cur_sum (ps : list (Z * Z)) (now : Z) : Z :=
   let cs := now - now mod bucket_ms in
   sum_in (cs + bucket_ms - window_ms) (cs + bucket_ms) ps.
 
+(* the code compares the int64 bucket with int64(c.warningToken) / int64(c.maxToken): uint64 values
+   from 2^63 on (only reachable with absurd thresholds such as +Inf) wrap to negative numbers *)
+Definition wi (c : wcfg) : Z := i64 (w_warning c).
+Definition mi (c : wcfg) : Z := i64 (w_max c).
+
 Definition cool_down (c : wcfg) (st : wst) (cur : Z) (pass_qps : float) : Z :=
   let old := stored st in
   let nv :=
-    if old <? w_warning c then
+    if old <? wi c then
       go_i64_of_f (f_of_i64 old + (f_of_u64 cur - f_of_u64 (last_filled st)) * w_thr c / 1000)%float
     else (* old >= warningToken (was >: a bucket exactly on the warning line never refilled) *)
       if (pass_qps <? f_of_u64 (go_u32_of_f (w_thr c) / w_cf c))%float
       then go_i64_of_f (f_of_i64 old + f_of_u64 (u64 (cur - last_filled st)) * w_thr c / 1000)%float
       else old in
-  if nv <=? w_max c then nv else w_max c.
+  if nv <=? mi c then nv else mi c.
 
 Definition sync_token (c : wcfg) (st : wst) (now : Z) (pass_qps : float) : wst :=
   let cur := now - now mod 1000 in
@@ -83,8 +88,8 @@ Definition sync_token (c : wcfg) (st : wst) (now : Z) (pass_qps : float) : wst :
 
 Definition allowed_of (c : wcfg) (tokens : Z) : float :=
   let rest := if tokens <? 0 then 0 else tokens in
-  if rest >=? w_warning c then
-    go_nextafter_max (1 / (f_of_i64 (rest - w_warning c) * w_slope c + 1 / w_thr c))%float
+  if rest >=? wi c then
+    go_nextafter_max (1 / (f_of_i64 (i64 (rest - wi c)) * w_slope c + 1 / w_thr c))%float
   else w_thr c.
 
 (* CalculateAllowedTokens at time `now` *)
